@@ -1252,8 +1252,15 @@ func (s *Server) cleanupExpiredLeases() {
 		}
 
 		// Remove from fast path cache (MAC, VLAN pair and circuit-id entries) and end
-		// the session as a RELEASE does: Accounting-Stop, QoS policy, NAT block
-		if hwAddr, _ := net.ParseMAC(mac); hwAddr != nil {
+		// the session as a RELEASE does: Accounting-Stop, QoS policy, NAT block. The
+		// lease carries the client's hardware address as received; the table key is its
+		// text form, which net.ParseMAC reads back only for 6-, 8- and 20-byte addresses
+		// (chaddr may be 1 to 16 bytes long)
+		hwAddr := lease.MAC
+		if hwAddr == nil {
+			hwAddr, _ = net.ParseMAC(mac)
+		}
+		if hwAddr != nil {
 			s.removeFromFastPathCache(hwAddr, lease)
 			s.releaseSessionResources(hwAddr, lease, radius.TerminateCauseSessionTimeout)
 		}
